@@ -154,7 +154,8 @@ def chk_reads(data, bps, ops, outs, restart=True, filelike=False, sr=None):
                 # seconds: the sample index is the whole-sample truncation of rate * t (the statement fixes only the unit)
                 p = int(sr * C.me_float(o[1])) if sr else None
             else:
-                p = int(sr * o[1] / 1000) if sr else None
+                # milliseconds: the whole-sample truncation of rate * ms / 1000, exactly (ms is an int here)
+                p = (abs(sr * o[1]) // 1000) * (1 if sr * o[1] >= 0 else -1) if sr else None
             if p is None:
                 return None
             norm = p + ns if p < 0 else p
@@ -226,6 +227,26 @@ def run(prop, tier):
             wv = chk_reads(data, w * ch, ops, outs, sr=sr)
             if wv:
                 viol = {"what": wv, **meta[-1], "impl_outputs": outs}
+    # ---- buffer source: positions in milliseconds at rates that are not multiples of 1000, where rate * ms / 1000 is a whole
+    # number of samples (the float quotient rate / 1000 is inexact there: only the exact product decides the sample)
+    for _ in range(400 if quick else 4000):
+        w, ch = r.choice(FORMATS)
+        d_ = r.choice([1, 2, 4, 5, 8, 10, 20, 25, 40, 50, 100, 125, 200, 250, 500]); m_ = r.choice([3, 7, 9, 11, 13, 21, 23, 29, 49])
+        sr = d_ * m_
+        n = r.randint(m_, 3 * m_ + 5)
+        data = mk_bytes(n, w * ch)
+        ops = [[0]]
+        for _k in range(r.randint(1, 4)):
+            j_ = r.randint(-(n // m_), n // m_)
+            ms_ = j_ * m_ * 1000 // sr + r.choice([0, 0, 0, 1, -1])
+            ops += [[9, ms_], [4], [3, [r.choice([1, 2])]], [4]]
+        outs = run_buffer(data, sr, w, ch, ops)
+        cases.append((20, [[list(data), sr, w * ch], ops])); impl.append(outs)
+        meta.append({"source": "buffer", "samples": n, "format(sr,sw,ch)": [sr, w, ch], "ops": ops})
+        if viol is None:
+            wv = chk_reads(data, w * ch, ops, outs, sr=sr)
+            if wv:
+                viol = {"what": wv, **meta[-1], "impl_outputs": outs}
     # ---- buffer source, exhaustive short sequences over a small alphabet
     alpha = [[0], [1], [2], [3, []], [3, [1]], [3, [2]], [3, [-1]], [4], [7, 1], [7, -1], [7, 9]]
     for n in (0, 3):
@@ -244,6 +265,8 @@ def run(prop, tier):
     # ---- file-like sources
     tmpd = os.path.join(C.TMP, "c11_%d" % os.getpid())
     os.makedirs(tmpd, exist_ok=True)
+    from auditok.io import from_file as aio_from_file
+    prev_len = {}
     try:
         for it in range(400 if quick else 4000):
             w, ch = r.choice(FORMATS); sr = r.choice([10, 16, 8000])
@@ -266,6 +289,30 @@ def run(prop, tier):
                 elif kind == "wav":
                     with wave.open(path, "wb") as f:
                         f.setframerate(sr); f.setsampwidth(w); f.setnchannels(ch); f.writeframes(data)
+                # the same path held other audio a moment ago (same size every few iterations) and carries the same time stamps
+                # (cp -p, rsync -t): a source made from it now, loaded at once, hands out what the file holds now
+                if kind in ("raw", "wav") and viol is None:
+                    keep_path, keep_data = path, data
+                    path = os.path.join(tmpd, "e.%s" % kind)
+                    data = bytes((b + 37 * it) % 256 for b in data)
+                    if kind == "raw":
+                        open(path, "wb").write(data)
+                    else:
+                        with wave.open(path, "wb") as f:
+                            f.setframerate(sr); f.setsampwidth(w); f.setnchannels(ch); f.writeframes(data)
+                    os.utime(path, (1700000000, 1700000000))
+                    try:
+                        esrc = aio_from_file(path, audio_format="raw", sampling_rate=sr, sample_width=w, channels=ch) if kind == "raw" else aio_from_file(path)
+                        esrc.open(); got_all = esrc.read(-1) if n else esrc.read(1); esrc.close()
+                        got_all = b"" if got_all is None else bytes(got_all)
+                    except Exception as e:
+                        got_all = "raised %s: %s" % (type(e).__name__, e)
+                    if got_all != data:
+                        viol = {"what": "from_file(%r) (loaded at once) on a %s file that has just replaced, in place, another file of %s size with the same time stamps: the source hands out %r, the file holds %r" % (
+                            os.path.basename(path), kind, "the same" if prev_len.get(kind) == len(data) else "another", list(got_all)[:24] if isinstance(got_all, bytes) else got_all, list(data)[:24]),
+                                "source": kind + " (eager)", "samples": n, "format(sr,sw,ch)": [sr, w, ch]}
+                    prev_len[kind] = len(data)
+                    path, data = keep_path, keep_data
                 # standard input fed in bursts that are not aligned with samples or requests (a pipe), every other case
                 burst = (0 if it % 2 == 0 else r.choice([1, 3, 5, 6, 7])) if kind == "stdin" else 0
                 outs = run_filelike(kind, path, data, sr, w, ch, ops_k, burst)
